@@ -586,6 +586,21 @@ def install_shims():
                 pass
 
     peer_mod.PeerConnection.__init__ = pc_init
+    # boundary event "message handed to a connection": lets a check wait until a caller thread has really queued its
+    # request (between route_request - identifiers set - and add_out_msg the request is in nobody's queue)
+    orig_add = peer_mod.PeerConnection.add_out_msg
+
+    def add_out_msg(self, out_msg):
+        r = orig_add(self, out_msg)
+        h = CUR
+        if h is not None:
+            try:
+                h.queued_ids.add((out_msg.header.hop_by_hop_identifier, out_msg.header.end_to_end_identifier))
+            except Exception:
+                pass
+        return r
+
+    peer_mod.PeerConnection.add_out_msg = add_out_msg
     orig_hook = real_threading.excepthook
 
     def hook(args):
@@ -633,6 +648,7 @@ class Harness:
         self.seq = 0
         self.activity = 0
         self.counters = _Counter()
+        self.queued_ids = set()
         self.api_busy = False
         self.tlast = 0.0
         self.queues: list[SQueue] = []
